@@ -209,9 +209,19 @@ func (s *ldapService) SetChannel(c pushers.Channel) {
 }
 
 func (s *ldapService) Handle(ctx context.Context, conn net.Conn) error {
-	s.wantTLS = false
+	// every connection is served by a session of its own: the connection, the login and the
+	// StartTLS state must not be shared between the connections of the service
+	s = &ldapService{
+		Server: Server{
+			Handlers:    make([]requestHandler, 0, 4),
+			Credentials: s.Credentials,
+			tlsConfig:   s.tlsConfig,
+			DSE:         s.DSE,
+		},
+		c: s.c,
+	}
 
-	s.login = "" // set the anonymous authstate
+	s.setHandlers()
 
 	s.Conn = NewConn(conn)
 
